@@ -547,6 +547,7 @@ class IKRun:
             excess = max(ang - rot_tol, (min(lin) - pos_tol) / max(rb[1] if rb else 10.0, 1.0), 0.0)
             detail = dict(sig, rot_tol=rot_tol, pos_tol=pos_tol, ang=ang, lin=min(lin), restarts=restarts,
                           reachable=info["reachable"], raw_free_max=self.raw_free_max,
+                          prismatic_wrapped=self._prismatic_wrapped(path),
                           lib_ang_ok=bool(lib_ang <= rot_tol * (1 + 1e-6) + 1e-12),
                           wrap_explains=bool(excess <= self.raw_free_max * 4e-15))
             if self.raw_free_max >= 1e4:
@@ -683,6 +684,15 @@ class IKRun:
                              "alias": True, "success": bool(success)})
         self.probes["returned_vector_edited_by_caller"] += 1
 
+    def _prismatic_wrapped(self, path):
+        """Unconstrained path only: did the kernel return a prismatic joint beyond 2*pi of travel (which Arm.IK's
+        angleMod then reduces as if it were an angle)?"""
+        mask = self.trace["config"]["arm"].get("prismatic")
+        raw = self.raw_free_theta
+        if path != "free" or not mask or raw is None or len(raw) != len(mask):
+            return False
+        return bool(any(m_ and abs(float(raw[j])) > 2 * math.pi for j, m_ in enumerate(mask)))
+
     def _goal_alias_check(self, st, exc, info):
         """The caller owns its goal object as well: moving it afterwards (re-using one tm for the next way-point) must
         not move the arm's reported tool pose."""
@@ -776,8 +786,9 @@ def _chain(r):
     spec = {"kind": "chain", "axes": axes, "points": pts, "ee": ee}
     # Prismatic joints: Arm.FK / Arm.IK(protect=True) wrap every joint value with angleMod, which turns a prismatic travel
     # of 6.39 m into 0.10 m -- a forward-kinematics state defect (C05's business; DESIGN.md section 10).  Prismatic joints
-    # are therefore generated only with a travel of +-4 (< 2*pi, so the wrap never fires) and only solved on the
-    # limit-respecting path (gen_trace sets p_protect = 0 for these arms).
+    # are therefore generated only with a travel of +-4 (< 2*pi, so the wrap cannot fire on the limit-respecting path);
+    # on the unconstrained path a solve may still end on a branch with more than 2*pi of travel: that is the known
+    # finding C07-prismatic-wrap, identified by the kernel's own output (prismatic joint beyond 2*pi before the wrap).
     if r.random() < 0.2:
         mask = [r.random() < 0.35 for _ in range(n)]
         if not any(mask):
@@ -832,8 +843,6 @@ def gen_trace(seed):
     iters_mode = pick_weighted(r, [("tiny", 1.5), ("small", 2.0), ("mid", 2.0), ("generous", 3.0)])
     restart_mode = pick_weighted(r, [("natural", 3.0), ("scripted", 4.0), ("off", 1.5)])
     has_prismatic = bool(spec.get("prismatic"))
-    if has_prismatic:
-        p_protect = 0.0
     # a correlated corner the independent knobs meet too rarely: coarse or unequal tolerances, a small iteration
     # budget and restarts that end "almost there" before one succeeds (near miss, then success)
     campaign = pick_weighted(r, [("none", 7.0), ("nearmiss", 1.0), ("failstreak", 0.6)])
@@ -1212,5 +1221,6 @@ def signature(trace, violation):
     return {"clause": violation.clause, "op": d.get("op", last.get("op")), "path": d.get("path"), "ang": d.get("ang"),
             "rot_tol": d.get("rot_tol"), "raw_free_max": d.get("raw_free_max"), "lin": d.get("lin"), "min_tol": d.get("min_tol"),
             "lib_ang_ok": d.get("lib_ang_ok"), "wrap_explains": d.get("wrap_explains"), "blind_explains": d.get("blind_explains"),
+            "prismatic_wrapped": d.get("prismatic_wrapped"),
             "arm": d.get("arm"), "exception": d.get("exception"), "check": last.get("check"),
             "n_steps": len(trace["steps"]), "reachable": d.get("reachable")}
